@@ -322,13 +322,17 @@ pub fn run(args: &Args, out: &mut Out) {
     let ncorpus = files.len();
     let nmut = if args.thorough() { ncorpus * 8 } else { ncorpus / 2 };
     let ngen = args.cases(360, 30000);
-    let total = ncorpus + nmut + ngen;
+    let fam = super::progcase::family_cases();
+    let total = ncorpus + nmut + ngen + fam.len();
     let exec = exec_with(args);
     drive(
         args,
         out,
         total,
         |idx, rng| {
+            if idx >= ncorpus + nmut + ngen {
+                return fam.get(idx - ncorpus - nmut - ngen).cloned();
+            }
             if idx < ncorpus {
                 corpus_case(args, &files[idx], rng, false)
             } else if idx < ncorpus + nmut {
